@@ -54,6 +54,9 @@ OPS = {
     "handle-keep": (RICH, [{"op": "handle", "name": "a", "types": [True, False, True], "strategy": "keep", "result": RESULT}]),
     "handle-update": (RICH, [{"op": "handle", "name": "a", "types": [True, False, True], "strategy": "update", "result": RESULT}]),
     "handle-recreate": (RICH, [{"op": "handle", "name": "a", "types": [True, False, True], "strategy": "recreate", "result": RESULT}]),
+    "handle-migrate-replace": (LEGACY, [{"op": "handle", "name": "a", "meta_type": "v1", "types": [True, False, True], "strategy": "keep", "migration": "replace", "migrated": {"version": "9"}, "result": dict(RESULT, metadata={"version": "2"})}]),
+    "handle-migrate-recreate": (LEGACY, [{"op": "handle", "name": "a", "meta_type": "v1", "types": [True, False, True], "strategy": "keep", "migration": "recreate", "result": dict(RESULT, metadata={"version": "2"})}]),
+    "write-exec-d-two": (RICH, [KEEP, {"op": "write_exec_d", "name": "a", "programs": {"p3": "p3", "p1": "p2"}}]),
     "layerenv-write": (RICH, [{"op": "env_write", "name": "a", "env": ENV_OTHER}]),
     "layerenv-read": (RICH, [{"op": "env_read", "name": "a"}]),
 }
